@@ -28,7 +28,35 @@ RULE = ("enc: DAG (chain/diamond/octopus/random; timestamps monotone, skewed, or
 BIG = [2**31 - 3, 2**31 - 2, 2**31 - 1, 2**31, 2**31 + 1, 2**32 - 3, 2**32 - 2, 2**32 - 1, 2**32, 2**32 + 5]
 
 
+def commit_id(parents, t, msg):
+    """id of the commit `git fast-import` creates for (parents, time, message) with the fixed identity and the empty tree"""
+    import hashlib
+    data = (b"tree " + D.EMPTY_TREE.encode() + b"\n" + b"".join(b"parent " + p.encode() + b"\n" for p in parents)
+            + b"author V <v@example.com> %d +0000\ncommitter V <v@example.com> %d +0000\n\n" % (t, t) + msg)
+    return hashlib.sha1(b"commit %d\0" % len(data) + data).hexdigest()
+
+
+def fanout_dag(rng):
+    """a history whose commit ids hit the fanout boundaries: first bytes 00, 01, fe, ff (times chosen by search)"""
+    k = rng.choice([3, 4, 5, 6])
+    par = D.shape(rng, rng.choice(["chain", "diamond", "random"]), k)
+    targets = [rng.choice(["00", "00", "01", "ff", "ff", "fe", None]) for _ in range(k)]
+    times, ids, t = [], [], D.T0
+    for i in range(k):
+        t = max([times[p] for p in par[i]] + [t]) + 1
+        for _ in range(4000):
+            h = commit_id([ids[p] for p in par[i]], t, b"node %d\n" % i)
+            if targets[i] is None or h.startswith(targets[i]):
+                break
+            t += 1
+        times.append(t)
+        ids.append(h)
+    return par, times
+
+
 def dag_for(rng, bucket):
+    if bucket == "fanout":
+        return fanout_dag(rng)
     k = rng.choice([1, 2, 3, 4, 5, 6, 8])
     if bucket == "octopus":
         k = max(k, 5)
@@ -64,7 +92,7 @@ class Enc(Suite):
             dags = []
             repo = D.GitDags(tmp)
             for j in range(n):
-                b = pick_weighted(rng, [(3, "mono"), (2, "skew"), (2, "octopus"), (3, "big1"), (2, "big2")])
+                b = pick_weighted(rng, [(3, "mono"), (2, "skew"), (2, "octopus"), (3, "big1"), (2, "big2"), (2, "fanout")])
                 par, times = dag_for(rng, b)
                 repo.add(j, par, times)
                 dags.append((b, par, times))
@@ -191,7 +219,7 @@ class Dec(Suite):
             j = 0
             while len(cases) < n:
                 j += 1
-                b = pick_weighted(rng, [(3, "mono"), (2, "skew"), (2, "octopus"), (2, "big1"), (1, "big2")])
+                b = pick_weighted(rng, [(3, "mono"), (2, "skew"), (2, "octopus"), (2, "big1"), (1, "big2"), (2, "fanout")])
                 par, times = dag_for(rng, b)
                 root = os.path.join(tmp, "r%d" % j)
                 os.makedirs(root)
